@@ -93,13 +93,19 @@ def term_of_instance(alg):
     if isinstance(alg, BioCo):
         return [5]
     if isinstance(alg, BioConsert):
-        return [6, [term_of_instance(a) for a in alg._starting_algorithms]]
+        st = getattr(alg, "_starting_algorithms", None)
+        if st is None:
+            return None   # private attribute renamed: the configuration cannot be read off the object
+        sub = [term_of_instance(a) for a in st]
+        return None if any(t is None for t in sub) else [6, sub]
     if isinstance(alg, ParCons):
-        return [7, term_of_instance(alg._auxiliary_alg)]
+        aux = getattr(alg, "_auxiliary_alg", None)
+        sub = term_of_instance(aux) if aux is not None else None
+        return None if sub is None else [7, sub]
     table = {"ExactAlgorithm": [0], "ExactAlgorithmPulp": [0], "ExactAlgorithmCplex": [0],
              "ExactAlgorithmCplexForPaperOptim1": [0], "KwikSortRandom": [1], "CopelandMethod": [2], "BordaCount": [3],
              "PickAPerm": [4]}
-    return list(table[cname])
+    return list(table[cname]) if cname in table else None
 
 
 def model_term(term):
